@@ -57,10 +57,10 @@ Fixpoint text_eqb (a b : text) : bool :=
   end.
 
 (* itertools::minmax over a non-empty sequence x :: l *)
-Fixpoint list_min (x : nat) (l : list nat) : nat :=
-  match l with [] => x | y :: r => list_min (Nat.min x y) r end.
-Fixpoint list_max (x : nat) (l : list nat) : nat :=
-  match l with [] => x | y :: r => list_max (Nat.max x y) r end.
+Fixpoint pts_min (x : nat) (l : list nat) : nat :=
+  match l with [] => x | y :: r => pts_min (Nat.min x y) r end.
+Fixpoint pts_max (x : nat) (l : list nat) : nat :=
+  match l with [] => x | y :: r => pts_max (Nat.max x y) r end.
 
 (* ---------- finite maps as association lists (first match wins) ---------- *)
 Section Assoc.
@@ -95,7 +95,7 @@ Section Tokens.
     match flat_map tok_points ts with
     | [] => Ok None
     | [x] => do s <- span_new x x; Ok (Some s)
-    | x :: r => do s <- span_new (list_min x r) (list_max x r); Ok (Some s)
+    | x :: r => do s <- span_new (pts_min x r) (pts_max x r); Ok (Some s)
     end.
 
   (* what the token hash is fed with, per token: the kind, `token.span.start - chunk_span.start` and
